@@ -279,6 +279,32 @@ def run(ctx):
                 continue
             done('R-MASK', name, bad, it)
         ctx.floor('numeric vector types with comparisons (%s)' % cfg, len(cmp_types), 34)
+        # associated constants TRUE / FALSE of the mask types
+        Ic = H.new_interp()
+        n_const = 0
+        for path, k in sorted(F.konsts.items()):
+            if k['name'] not in ('TRUE', 'FALSE'):
+                continue
+            tyid = None
+            for i_, t_ in F.types.items():
+                if t_['n'] == k['self_ty']:
+                    tyid = i_
+                    break
+            vi = vec_info(F, tyid) if tyid is not None else None
+            if vi is None or not is_mask_name(vi['name']):
+                continue
+            n_const += 1
+            try:
+                val = Ic.eval_const(k['v'])
+                lanes = value_lanes(F, val, tyid)
+            except Exception as e_:
+                lanes = None
+            want = tm.TRUE if k['name'] == 'TRUE' else tm.FALSE
+            if lanes is None or any(l is not want for l in lanes):
+                ctx.violation('R-MASK', cfg, path, {'problem': '%s is not all-%s: %s' % (k['name'], k['name'].lower(), [tm.show(l) for l in (lanes or [])])})
+            else:
+                ctx.holds('R-MASK', cfg, path)
+        ctx.floor('mask constants (%s)' % cfg, n_const, 10)
         # Hash (generic over the hasher): what is fed to the hasher depends on every one of the N lanes and on nothing else
         n_hash = 0
         for name, it in sorted(F.items.items()):
